@@ -180,6 +180,10 @@ Announced(s) == CASE s.k = "insn"  -> InsnSize(s.op)
                   [] s.k \in {"label", "const", "extern", "externall", "link", "end", "once", "repeathead", "includehead"} -> 0
                   [] OTHER -> -1
 
+(* .ascii with chunks: quoted text [q |-> bytes] and <expr> chunks [e |-> expression] (one byte each) *)
+RECURSIVE ChunksLen(_)
+ChunksLen(cs) == IF cs = <<>> THEN 0 ELSE (IF "q" \in DOMAIN Head(cs) THEN Len(Head(cs).q) ELSE 1) + ChunksLen(Tail(cs))
+
 (* r = [st, v] ; address-dependent sizes need the base: in the symbolic pass they are "dep" *)
 SizeOf(env, i) ==
     LET s   == env.items[i].s
@@ -202,6 +206,7 @@ SizeOf(env, i) ==
                           ELSE IF a.c <= 0 THEN E(Err("range"))
                           ELSE IF env.symb \/ adr.u THEN D ELSE N(Mod(-adr.c, a.c))
       [] s.k = "ascii"  -> N(Len(s.bs))
+      [] s.k = "asciic" -> N(ChunksLen(s.cs))          \* one byte per <expr> chunk, whatever its value
       [] s.k = "insert" -> N(s.len)
       [] s.k = "skip"   -> \* `. = E` once the base is set: move forward to E, zero-filling
             IF env.symb THEN D
@@ -310,6 +315,11 @@ ItemBytes(env, sizes, i) ==
       [] s.k = "word"  -> IF a % 2 = 1 THEN Bad(<<0>> \o DataBytes(env, i, 2).bs, FALSE) ELSE DataBytes(env, i, 2)
       [] s.k = "dword" -> IF a % 2 = 1 THEN Bad(<<0>> \o DataBytes(env, i, 4).bs, FALSE) ELSE DataBytes(env, i, 4)
       [] s.k = "ascii" -> Plain(s.bs)
+      [] s.k = "asciic" -> Cat([q \in DOMAIN s.cs |->
+                                 IF "q" \in DOMAIN s.cs[q] THEN Plain(s.cs[q].q)
+                                 ELSE LET x == NumVal(env, s.cs[q].e, i) IN
+                                      IF x.st = "err" THEN Bad(<<0>>, x.why = "cycle")
+                                      ELSE IF x.c < 0 \/ x.c > 255 THEN Bad(<<0>>, FALSE) ELSE Plain(<< x.c >>)])
       [] s.k = "insert" -> Plain([q \in 1..s.len |-> ((7 * q) + s.len) % 256])
       [] s.k = "const" -> LET x == Val(env, s.e, i, {i}) IN            \* every symbol is resolved, used or not
                           IF x.st = "err" THEN Bad(<<>>, x.why = "cycle") ELSE Plain(<<>>)
@@ -374,7 +384,8 @@ LayoutAlphabet ==
     [k |-> "ascii", bs |-> <<65, 66, 67>>], Lab("a"), Lab("b"), Const("n", Num(3)),
     DotSet(Bin("+", Dot, Num(5))), [k |-> "insert", len |-> 5], [k |-> "dword", es |-> << Num(66000), Num(-2) >>], Blkw(Num(2)), I1("sob", A),
     Rep(2, << I0("nop"), W(<< Dot >>) >>), Inc(1), Inc(2), W(<<>>), By(<<>>), [k |-> "dword", es |-> <<>>],
-    Rep(2, << W(<< B >>), [k |-> "ascii", bs |-> <<72, 105>>] >>), Inc(4) }
+    Rep(2, << W(<< B >>), [k |-> "ascii", bs |-> <<72, 105>>] >>), Inc(4),
+    [k |-> "asciic", cs |-> << [q |-> <<97, 98, 99>>], [e |-> Sym("n")], [q |-> <<100, 101>>], [e |-> Sym("n")], [e |-> Bin("+", Sym("n"), Num(7))] >>] }
 RelocAlphabet ==       \* C09: even-sized statements; absolute (#a, @#b, .word a) and relative (a, br a) references
   { I0("nop"), I1("movi", A), I1("mova", B), I1("movr", A), I1("movr", B), I2("movrr", A, B), I2("movii", A, B),
     I2("movii", Bin("-", B, A), Bin("+", A, Num(2))), I1("clra", B), I1("br", A), I1("br", B), I1("sob", A),
@@ -456,7 +467,7 @@ ListIncFiles == << [name |-> "i1", body |-> << Lab("x"), I0("nop"), Lab("a"), Co
 LayoutCoreAlphabet ==  \* C02: the core of LayoutAlphabet, small enough for all programs of 4 statements
   { I0("nop"), I1("movi", A), I1("movr", A), W(<<A, Dot>>), W(<<>>), By(<< Num(1) >>), Blkb(Sym("n")), [k |-> "even"], [k |-> "align", e |-> Num(4)],
     [k |-> "ascii", bs |-> <<65, 66, 67>>], Lab("a"), Const("n", Num(3)), DotSet(Bin("+", Dot, Num(5))), Rep(2, << W(<< B >>), [k |-> "ascii", bs |-> <<72, 105>>] >>),
-    Inc(2), Lab("b") }
+    Inc(2), Lab("b"), [k |-> "asciic", cs |-> << [e |-> Sym("n")], [q |-> <<100, 101>>], [e |-> Num(10)] >>] }
 LayoutIncFiles == << [name |-> "i1", body |-> << Lab("x"), W(<< Sym("x"), Dot >>), By(<< Num(7) >>) >>],
                      [name |-> "i2", body |-> << W(<< Sym("y") >>), [k |-> "ascii", bs |-> <<79, 75, 33>>], Lab("y"), By(<< Bin("-", Dot, Sym("y")) >>) >>],
                      [name |-> "i3", body |-> << By(<< Num(3) >>), Inc(2), [k |-> "even"], Lab("z"), W(<< Sym("z"), Dot >>) >>],          \* include depth 2
